@@ -3,6 +3,9 @@
 import json, os, subprocess
 
 CLAIMED = {
+ "C11": dict(design="5.1/C11", technique="Coq proof (mod-256 lift + kernel-checked 256-code sweep, itoa/atoi round trip, SGR scanner) + differential harness on detectOneMsg/readAnsiInputs",
+             text="C11_sgr / C11_x10: for every code, every coordinate and any following bytes the model of detectOneMsg returns the xterm-specified mouse message and consumes exactly the report's bytes; unbounded in code and coordinates. Constants/bit masks/regex are regenerated from mouse.go, key.go on every run (tie); the model is compared with the real decoder on all 256x2 SGR and 224 X10 codes, huge numbers, embedded reports and malformed near-misses, and the Spec is evaluated on the real output.",
+             note="Trusted: Coq kernel + vm_compute; goextract; harness; Go regexp/strconv mirrored by match_sgr/atoi_sat (validated by K2). Spec fixes the one case xterm never emits (SGR low bits 3) as release of no button. Deprecated MouseEvent.Type is compared with the model only, not specified. No axioms."),
  "C20": dict(design="5.3/C20", technique="Coq proof over the translated delay expression (goextract -> gen/TimerExpr.v) + real-timer correspondence",
              text="Theorems over the delay expression translated from commands.go on every run: 0 < w <= d, (n+w) mod d = 0, least such multiple; not-early and message = fn(firing time) under the stated Go timer contract (hypothesis, hence _partial). Real Tick/Every runs are checked against the Spec predicates and a control timer.",
              note="Trusted: Coq kernel + vm; goextract translator; Go runtime timers/clock (hypothesis runtime_timer_ok); 100us clock-reading tolerance in the real-run check. No axioms."),
